@@ -96,6 +96,9 @@ pub enum BuildMode {
     InsertEach,
     /// insert every node under the root, then `transfer_within` into place
     InsertThenMove,
+    /// a DOM without a root (`WeakDom::default()`): every top-level node is a parentless tree
+    /// inserted under the null parent
+    Rootless,
 }
 
 pub fn build(forest: &GForest, mode: BuildMode, prop_order: Option<&[Vec<usize>]>) -> BuiltDom {
@@ -145,6 +148,21 @@ pub fn build(forest: &GForest, mode: BuildMode, prop_order: Option<&[Vec<usize>]
             for i in 0..n {
                 let parent = forest.nodes[i].parent.map(|p| refs[p]).unwrap_or(root);
                 dom.insert(parent, make_builder(i));
+            }
+            dom
+        }
+        BuildMode::Rootless => {
+            let mut built: Vec<Option<InstanceBuilder>> = (0..n).map(|_| None).collect();
+            for i in (0..n).rev() {
+                let mut b = make_builder(i);
+                for c in &kids[i] {
+                    b.add_child(built[*c].take().unwrap());
+                }
+                built[i] = Some(b);
+            }
+            let mut dom = WeakDom::default();
+            for t in &top {
+                dom.insert(Ref::none(), built[*t].take().unwrap());
             }
             dom
         }
